@@ -954,6 +954,8 @@ def run(ctx) -> None:
              "(or a caller reads its list afterwards): an error must not be recorded into a list that is thrown away")
     ctx.rule("C06.R18-identity-keys-use-printed-values", "a helper of dsl.py whose result keys a mapping (the table of known environments) puts the printed "
              "form (str/repr) of the values into that key: raw values compare with Python's equality (1 == True == 1.0) and merge different environments")
+    ctx.rule("C06.R20-nothing-is-remembered-between-scopes", "the compiler keeps no process-wide mutable state: no function of the load path stores into a "
+             "module-level or class-level list/dict/set (the C15.R6 analysis, class bodies included)")
     ctx.rule("C06.R19-foreign-exceptions-are-funnelled", "a handler of dsl.py that re-wraps the text of the caught exception into a new located error is the funnel "
              "for exceptions of foreign code and catches Exception (an invalid namespace is rejected with DSLInvalidError, not with a raw KeyError)")
     ctx.rule("C06.R4-unique-names", "component names are numbered over the ordered components and every name is checked against the names already used")
@@ -1223,6 +1225,13 @@ def run(ctx) -> None:
     check_identity_keys_use_printed_values(ctx, d)
     check_foreign_exception_funnels(ctx, d)
     check_dedup_keeps_locations(ctx, d)
+    # R20: nothing the compiler computes for one scope is kept where another scope (or another compilation) finds it: no function of
+    # the load path writes into a module-level or class-level mutable object (seed C06-14: a table of absolute references on
+    # ScopeStack.Scope keyed by the enclosing step's NAME - two instances of one workflow at different locations share its entries)
+    from checks.c15 import check_module_memos
+    check_module_memos(ctx, "C06.R20-nothing-is-remembered-between-scopes",
+                       "in dsl.py: what was resolved for one template instance (or in an earlier compilation) is served to another one, the "
+                       "consumers of the second instance are wired to the producers of the first and the result is still valid FlowIR")
 
     # ---------------- R6 -------------------------------------------------------------------------------
     sp = d.func("OutputReference.split")
